@@ -208,6 +208,8 @@ fn scenarios(seed: u64, thorough: bool) -> Vec<Scn> {
             edits: vec![],
         },
     ];
+    // a conflict whose natural conflict-copy name is already taken by other content: the numbered fallback is active
+    s.push(Scn { name: "S11-numbered-conflict", init_a: both(z()), init_b: both(z()), prior_sync: true, edits: vec![] });
     s.push(Scn { name: "S4-delete-A", init_a: both(z()), init_b: both(z()), prior_sync: true, edits: vec![('A', "f", None)] });
     s.push(Scn { name: "S7-delete-vs-modify", init_a: both(z()), init_b: both(z()), prior_sync: true, edits: vec![('A', "f", None), ('B', "f", Some(y()))] });
     if thorough {
@@ -264,6 +266,26 @@ impl Slot {
             if r.code != Some(0) {
                 machinery_error(format!("scenario {} prior sync failed: {:?} {}", s.name, r.code, r.stderr));
             }
+        }
+        if s.name == "S11-numbered-conflict" {
+            // round 1: divergent edit -> winner at f, loser L at f.conflict-<host>-<hash(L)>
+            let (x, y) = (b"XXXX-version\n".to_vec(), b"YY-other\n".to_vec());
+            write_files(&self.a(), &[("f", x.clone())]);
+            write_files(&self.b(), &[("f", y.clone())]);
+            let r = self.bisync(None, None);
+            if r.code != Some(1) {
+                machinery_error(format!("S11 preparation: the first conflict run exited {:?}", r.code));
+            }
+            let snap = snapshot_dir(&self.a());
+            let Some((cname, loser)) = snap.iter().find(|(k, _)| k.contains(".conflict-")).map(|(k, v)| (k.clone(), v.clone())) else { machinery_error("S11 preparation: no conflict-copy after a divergent edit") };
+            // both sides edit the conflict-copy to the same other content; then the conflict recurs with the SAME loser
+            for root in [self.a(), self.b()] {
+                write_files(&root, &[(cname.as_str(), b"edited conflict-copy".to_vec())]);
+            }
+            let lh = blake3::hash(&loser);
+            let winner2 = (0..200u32).map(|i| format!("V-new-content-{i}\n").into_bytes()).find(|v| blake3::hash(v).as_bytes() > lh.as_bytes()).unwrap_or_else(|| machinery_error("S11: no winning content found"));
+            write_files(&self.a(), &[("f", loser)]);
+            write_files(&self.b(), &[("f", winner2)]);
         }
         for (side, p, v) in &s.edits {
             let root = if *side == 'A' { self.a() } else { self.b() };
@@ -509,15 +531,15 @@ fn prepare_state(slot: &Slot, s: &StateScn) {
 
 fn c08_scenario(slot: &Slot, s: &Scn, max_subsets: usize, evals: &AtomicU64, nontrivial: &AtomicU64, positions: &AtomicU64) -> Vec<Violation> {
     slot.prepare(s);
-    c08_prepared(slot, &NameOnly { name: s.name.to_string() }, max_subsets, evals, nontrivial, positions)
+    c08_prepared(slot, &NameOnly { name: s.name.to_string() }, max_subsets, true, evals, nontrivial, positions)
 }
 
 fn c08_state_scenario(slot: &Slot, s: &StateScn, max_subsets: usize, evals: &AtomicU64, nontrivial: &AtomicU64, positions: &AtomicU64) -> Vec<Violation> {
     prepare_state(slot, s);
-    c08_prepared(slot, &NameOnly { name: s.name.clone() }, max_subsets, evals, nontrivial, positions)
+    c08_prepared(slot, &NameOnly { name: s.name.clone() }, max_subsets, POST_EDIT_ON_GRAPH.load(Ordering::Relaxed), evals, nontrivial, positions)
 }
 
-fn c08_prepared(slot: &Slot, s: &NameOnly, max_subsets: usize, evals: &AtomicU64, nontrivial: &AtomicU64, positions: &AtomicU64) -> Vec<Violation> {
+fn c08_prepared(slot: &Slot, s: &NameOnly, max_subsets: usize, post_edit: bool, evals: &AtomicU64, nontrivial: &AtomicU64, positions: &AtomicU64) -> Vec<Violation> {
     let mut out: Vec<Violation> = Vec::new();
     let logp = slot.root.join("log");
     let pre = slot.state();
@@ -630,13 +652,72 @@ fn c08_prepared(slot: &Slot, s: &NameOnly, max_subsets: usize, evals: &AtomicU64
             if out.len() >= 4 {
                 return out;
             }
+            // (6) the user edits a file AFTER the crash and before running bisync again (a history continues from
+            // every crash state): the recovery run(s) must complete, lose nothing (C02), leave both sides equal with
+            // an idempotent second run (C06), and no file may hold bytes that nobody ever wrote.
+            if torn.is_null() && post_edit && k <= n {
+                for side in ["A", "B"] {
+                    for n in ["A", "B", "home"] {
+                        wipe(&slot.root.join(n));
+                    }
+                    for (n, t) in [("A", &kill_state.0), ("B", &kill_state.1), ("home", &kill_state.2)] {
+                        for (p, b) in t {
+                            write_files(&slot.root.join(n), &[(p.as_str(), b.clone())]);
+                        }
+                    }
+                    let edit: Vec<u8> = b"s!".to_vec();
+                    let target: Option<String> = pre.0.keys().chain(pre.1.keys()).find(|p| !is_staging(p) && !p.contains(".conflict-")).cloned();
+                    let Some(target) = target else { continue };
+                    write_files(&slot.root.join(side), &[(target.as_str(), edit.clone())]);
+                    let edited = slot.state();
+                    evals.fetch_add(1, Ordering::Relaxed);
+                    let mut ok = false;
+                    let mut last_err = String::new();
+                    for _ in 0..3 {
+                        let r = slot.bisync(None, None);
+                        if r.code == Some(0) || (r.code == Some(1) && r.stderr.contains("had conflicts")) {
+                            ok = true;
+                            break;
+                        }
+                        last_err = r.stderr;
+                    }
+                    let after = slot.state();
+                    let mut known: Vec<&Vec<u8>> = Vec::new();
+                    for t in [&pre.0, &pre.1, &fin.0, &fin.1, &kill_state.0, &kill_state.1] {
+                        known.extend(t.iter().filter(|(p, _)| !is_staging(p)).map(|(_, b)| b));
+                    }
+                    known.push(&edit);
+                    let d2 = json!({"scenario": s.name, "kill_at": k, "torn": Value::Null, "post_crash_edit": {"side": side, "path": target}});
+                    let what = format!("scenario {} killed before call {k}, then {target} rewritten (2 bytes) on side {side}", s.name);
+                    if !ok {
+                        out.push(Violation::new("recovery_fails", format!("{what}: three recovery runs all failed: {}", last_err.lines().last().unwrap_or("")), d2).with("scenario", json!(s.name)).with("post_crash_edit", json!(true)));
+                    } else if let Some((p, b)) = after.0.iter().chain(after.1.iter()).filter(|(p, _)| !is_staging(p)).find(|(_, b)| !known.contains(b)) {
+                        out.push(Violation::new("alien_bytes", format!("{what}: after recovery {p} holds {} bytes that were never written by anyone", b.len()), d2).with("scenario", json!(s.name)).with("post_crash_edit", json!(true)));
+                    } else if non_staging(&after.0) != non_staging(&after.1) {
+                        out.push(Violation::new("recovery_not_converged", format!("{what}: after a completed recovery run the two sides differ"), d2).with("scenario", json!(s.name)).with("post_crash_edit", json!(true)));
+                    } else if let Some(m) = c02_lost(&edited, &after) {
+                        out.push(Violation::new("recovery_loses_version", format!("{what}: {m}"), d2).with("scenario", json!(s.name)).with("post_crash_edit", json!(true)));
+                    } else {
+                        let r = slot.bisync(None, None);
+                        if r.code != Some(0) || slot.state().0 != after.0 || slot.state().1 != after.1 {
+                            out.push(Violation::new("recovery_not_idempotent", format!("{what}: a further run after the completed recovery exits {:?} or changes a tree", r.code), d2).with("scenario", json!(s.name)).with("post_crash_edit", json!(true)));
+                        }
+                    }
+                    if out.len() >= 4 {
+                        return out;
+                    }
+                }
+            }
         }
     }
     out
 }
 
+static POST_EDIT_ON_GRAPH: std::sync::atomic::AtomicBool = std::sync::atomic::AtomicBool::new(false);
+
 pub fn run_c08(ctx: &Ctx) -> ! {
     let thorough = ctx.tier.is_thorough();
+    POST_EDIT_ON_GRAPH.store(thorough, Ordering::Relaxed);
     let scs = scenarios(ctx.seed, thorough);
     let evals = AtomicU64::new(0);
     let nontrivial = AtomicU64::new(0);
